@@ -137,7 +137,15 @@ impl SocksListener {
         let auth_server = PasswordAuth {
             required: self.auth.required,
         };
-        let request = SocksRequest::read_from(&mut socket, auth_server).await?;
+        let request = match SocksRequest::read_from(&mut socket, auth_server).await {
+            Ok(request) => request,
+            Err(e) => {
+                // the context is already registered: record how it ended
+                ctx.on_error(err_msg(format!("handshake failed: {}", e)))
+                    .await;
+                return Err(e);
+            }
+        };
         debug!("request {:?}", request);
 
         ctx.write()
